@@ -2,6 +2,7 @@ import PfdlModel.Basic
 import PfdlModel.ExprParse
 import PfdlModel.Surface
 import PfdlProofs.ParseRoundTrip
+import PfdlProofs.Regroup
 /-! C13 – guards and conditions evaluate to their arithmetic / logical value. -/
 namespace Pfdl.Props.C13
 open Pfdl Pfdl.Generated Pfdl.ExprParse Pfdl.Surface
@@ -272,6 +273,33 @@ theorem decision_of_ordinary_reading (s : Expr) (hg : Canon precTable unaryPrec 
   refine ⟨?_, decision_eq_truth v (rot s) k r (by rw [sem_rot]; exact hs)⟩
   have := parseWith_flat precTable unaryPrec (rot s) hg
   rwa [flat_rot] at this
+
+def sK10' : Expr := .bin "*" (.bin "/" (.lit (.num 8 false)) (.lit (.num 2 false))) (.lit (.num 2 false))
+
+/-- **Precedence, in general.**  For every token list (atoms = values) whose ordinary reading `s` - the canonical
+    tree of the ordinary table: `*` `/` one rank, `+` `-` one rank below, comparisons, And, Or, everything
+    left-associative, parentheses group - does not contain the shape of finding K10 (a product whose left operand is
+    an unparenthesised quotient): the grammar reads the text as the regrouped tree `rot s`, and for every value of the
+    variables for which `s` has an ordinary value, the decision the scheduler takes is the truth value of `s`. -/
+theorem precedence_general (ts : List Tok) (hok : TokOk ts) (s : Expr)
+    (hread : parseWith ordTable unaryPrec ts = some s) (hk : noK10 s = true) :
+    parse ts = some (rot s) ∧
+    ∀ (v : Val) (k : Nat) (r : OV), sem v s = some r →
+      (((rot s).exec (fun _ => some v) k).1.map Val.truthy) = some r.truth := by
+  obtain ⟨hc, hf⟩ := (ordinary_reading_iff ts hok s).1 hread
+  have hg : Canon precTable unaryPrec 0 (rot s) := canon_rot s 0 (by simp [LevelOk]) hc hk
+  refine ⟨?_, fun v k r hs => (decision_of_ordinary_reading s hg v k r hs).2⟩
+  have := parseWith_flat precTable unaryPrec (rot s) hg
+  rw [flat_rot, hf] at this
+  exact this
+
+/-- the K10 shape is exactly what the general theorem excludes: for the witness the two readings differ in value -/
+theorem k10_value_differs :
+    let s := sK10'
+    noK10 s = false ∧ sem (.bool true) s = some (.num 8) ∧
+    (∃ t, parse (flat s) = some t ∧ sem (.bool true) t = some (.num 2)) := by
+  refine ⟨by decide, by decide +kernel, ⟨.bin "/" (.lit (.num 8 false)) (.bin "*" (.lit (.num 2 false)) (.lit (.num 2 false))), ?_, by decide +kernel⟩⟩
+  simp [sK10', flat, parse, parseWith, parseE, loopE, precTable, List.lookup]
 
 theorem canonB_iff (T : Table) (u : Nat) : ∀ (p : Nat) (t : Expr), canonB T u p t = true ↔ Canon T u p t
   | p, .paren e => by simp [canonB, Canon, canonB_iff T u 0 e]
